@@ -47,7 +47,11 @@ if os.path.exists(op):
     for name in sorted(last):
         if name not in exp: continue
         d = last[name]
-        v = ', '.join('%s %s' % (k, x.lower()) for k, x in sorted(d['verdicts'].items()))
+        if name.startswith('B-'):
+            alarms = sorted(k for k, x in d['verdicts'].items() if x != 'MISSED')
+            v = '%d checks run, no alarm' % len(d['verdicts']) if not alarms else '%d checks run, ALARM from %s' % (len(d['verdicts']), ', '.join(alarms))
+        else:
+            v = ', '.join('%s %s' % (k, x.lower()) for k, x in sorted(d['verdicts'].items()))
         r2.append('| %s | %s | %s |' % (name, 'yes' if d['suite_passes_with_patch'] else 'no (the existing tests already catch it)', v))
     t2 = '<!-- OWNTABLE-BEGIN -->\n' + '\n'.join(r2) + '\n<!-- OWNTABLE-END -->'
     s = open(p).read()
